@@ -150,8 +150,10 @@ def validate_traces(trace_module, cfg, scenarios, workdir, name, timeout=900, ex
     env = {"TRACE": path}
     if extra_env:
         env.update(extra_env)
+    # the whole trace file is deserialised into one TLA+ value: give the JVM room in proportion
+    mb = os.path.getsize(path) / 1e6
     r = check(trace_module, cfg, workers=1, timeout=timeout, coverage=False, depth_first=True, env_extra=env,
-              heap="6g")
+              heap="6g" if mb < 25 else ("12g" if mb < 60 else "24g"))
     if r["violation"] is not None and r["violation"]["name"] not in ("TraceDone",):
         # an invariant of the specification failed on an observed execution
         pass
